@@ -1091,6 +1091,100 @@ pub fn fam_rootbounds(seed: u64, tier: &str, index: u64) -> Scenario {
     Scenario { fam: "rootbounds".into(), id: index, opts: Opts::default(), steps: g.steps, engine: false }
 }
 
+/// `proof` (C06): a model in which every constraint is posted with its own tag (no `add_clause`,
+/// `constraints::clause` or `constraints::conjunction`: the library states that clauses cannot be
+/// tagged, "tagging clauses is not implemented"), solved to a definitive answer (unsatisfiable, or optimal
+/// under either procedure) with DRCP proof logging: scaffold, full, or full with hints; with and
+/// without nogood minimisation.
+pub fn fam_proof(seed: u64, tier: &str, index: u64) -> Scenario {
+    let mut g = Gen::new(rng_for(seed, "proof", index), params(tier));
+    g.p.max_space = g.p.max_space.min(300);
+    let kinds = [
+        "lin_le", "lin_eq", "lin_ne", "bin_le", "bin_lt", "bin_eq", "bin_ne", "plus", "times", "div",
+        "abs", "max", "min", "element", "alldiff", "cumulative", "bool_lin_le", "bool_lin_eq",
+    ];
+    let optimise = index % 3 != 0;
+    let mut tag = 0u32;
+    let mut post = |g: &mut Gen, c: Cons| {
+        tag += 1;
+        g.cons.push(c.clone());
+        g.steps.push(Step::Post { c, tag: Some(tag) });
+    };
+    let style = g.rng.gen_range(0..3);
+    if style == 0 {
+        // pigeon-hole flavoured: n variables over w values, pairwise different (binary or global)
+        let w = g.rng.gen_range(2..=3);
+        let n = if optimise { w } else { w + 1 };
+        let lo = g.rng.gen_range(-2..=1);
+        let xs: Vec<u32> = (0..n).map(|_| g.add_int_var_with((lo..lo + w).collect(), false)).collect();
+        let _ = g.add_lit();
+        if g.rng.gen_bool(0.5) {
+            post(&mut g, Cons::Alldiff { xs: xs.iter().map(|v| View::var(*v)).collect() });
+        } else {
+            for i in 0..xs.len() {
+                for j in i + 1..xs.len() {
+                    post(&mut g, Cons::BinNe { a: View::var(xs[i]), b: View::var(xs[j]) });
+                }
+            }
+        }
+    } else {
+        let nv = g.rng.gen_range(2..=4);
+        for _ in 0..nv {
+            let _ = g.add_int_var();
+        }
+        let _ = g.add_lit();
+    }
+    // the objective variable is declared before anything is posted (no variable can be created
+    // once posting has made the solver infeasible)
+    let maximise = g.rng.gen_bool(0.5);
+    let objective = if optimise {
+        let ivs = g.int_vars();
+        let x = View::var(*ivs.choose(&mut g.rng).unwrap());
+        let y = View::var(*ivs.choose(&mut g.rng).unwrap());
+        let info = |g: &Gen, v: View| (*g.info(v.v).vals.first().unwrap(), *g.info(v.v).vals.last().unwrap());
+        let (xl, xh) = info(&g, x);
+        let (yl, yh) = info(&g, y);
+        let o = g.add_int_var_with((xl + yl - 1..=xh + yh + 1).collect(), false);
+        Some((x, y, o))
+    } else {
+        None
+    };
+    let ncons = g.rng.gen_range(1..=4);
+    for _ in 0..ncons {
+        let k = *kinds.choose(&mut g.rng).unwrap();
+        let c = g.cons_of_kind(k);
+        let c = if c.is_negatable() && g.rng.gen_range(0..5) == 0 {
+            let l = *g.lit_vars().choose(&mut g.rng).unwrap();
+            let r = if g.rng.gen_bool(0.5) { View::var(l) } else { View { v: l, s: -1, o: 1 } };
+            if g.rng.gen_bool(0.5) { Cons::Reif { r, c: Box::new(c) } } else { Cons::Imp { r, c: Box::new(c) } }
+        } else {
+            c
+        };
+        post(&mut g, c);
+    }
+    let br = g.random_brancher();
+    if let Some((x, y, o)) = objective {
+        let neg = |v: View| View { v: v.v, s: -v.s, o: -v.o };
+        let ov = View::var(o);
+        let terms = if maximise { vec![ov, neg(x), neg(y)] } else { vec![x, y, neg(ov)] };
+        post(&mut g, Cons::LinLe { terms, rhs: 0 });
+        let obj = match g.rng.gen_range(0..4) {
+            0 => View { v: o, s: 2, o: 1 },
+            _ => ov,
+        };
+        g.steps.push(Step::Optimise { br, maximise, lus: g.rng.gen_bool(0.5), obj, stop_at: None });
+    } else {
+        g.steps.push(Step::Satisfy { br, stop_at: None });
+    }
+    let mut opts = g.random_opts();
+    opts.resolver = "uip".into();
+    if opts.restart_base <= 3 && opts.high_lbd_limit <= 4 {
+        opts.high_lbd_limit = 4000;
+    }
+    opts.proof = ["scaffold", "full", "hints"][(index as usize / 3) % 3].into();
+    Scenario { fam: "proof".into(), id: index, opts, steps: g.steps, engine: false }
+}
+
 /// `reif2`: two or three (half-)reified constraints (mostly linear inequalities, the only
 /// propagator with an incremental inconsistency check) over ONE reification literal in either
 /// polarity. While one wrapped propagator has merely been notified of an inconsistency the other
@@ -1477,6 +1571,7 @@ pub fn generate(fam: &str, seed: u64, tier: &str, index: u64) -> Scenario {
         "exh_kind" => fam_exh_kind(seed, tier, index),
         "big" => crate::big::fam_big(seed, tier, index),
         "reif2" => fam_reif2(seed, tier, index),
+        "proof" => fam_proof(seed, tier, index),
         "cumulative2" => fam_cumulative2(seed, tier, index),
         "rootbounds" => fam_rootbounds(seed, tier, index),
         "interrupt_base" => fam_interrupt_base(seed, tier, index),
